@@ -78,6 +78,13 @@ impl From<&Rgba> for Hsla {
             } * (360. / 6.);
             let mm = max + min;
             let sat = d / if mm > 1. { -mm + 2. } else { mm };
+            // In the rgb gamut the saturation is at most one, don't
+            // let a rounding error exceed that.
+            let sat = if min >= 0. && max <= 1. {
+                sat.min(1.)
+            } else {
+                sat
+            };
             Self::new(hue, sat, mm / 2., rgba.alpha(), false)
         }
     }
